@@ -454,6 +454,10 @@ impl ListFilter {
                 patterns.push(format!("{}{}{}", if l { "*" } else { "" }, mid, if t { "*" } else { "" }));
             }
         }
+        // plain (star-less) filters are substring searches whatever the case of the pattern
+        for t in ["MAP", "Ui", "INTERFACE", "Interface_Map", "BLP", ".Txt"] {
+            patterns.push(t.into());
+        }
         patterns.push("MAP*.blp".into());
         patterns.push("*.txt".into());
         patterns.push("**ui**".into());
